@@ -444,7 +444,8 @@ package mcp
 //@   snapshot afterDecode after call decodeCursor
 //@   track encodeCursor as enc
 //@   track fs.uniqueID as uid
-//@   requires pageSize > 0 && pageSize < 4611686018427387904
+//@   requires pageSize > 0   // all NewServer guarantees (a negative size panics there, zero becomes the default)
+//@   nopanic
 //@   rangeloop invariant @page-never-exceeds-its-size local(count) == len(local(features)) && local(count) <= pageSize
 //@   ensures @a-page-holds-at-most-page-size-items calls(setFunc) == 1 ==> len(callArg(setFunc, 1, 1)) <= pageSize
 //@   ensures @a-next-cursor-only-when-one-more-item-was-seen calls(enc) <= 1 && (calls(enc) == 1 ==> len(callArg(setFunc, 1, 1)) == pageSize && local(count) == pageSize + 1) && (result.1 == nil && calls(setFunc) == 1 && local(count) == pageSize + 1 ==> calls(enc) == 1)
@@ -461,8 +462,15 @@ package mcp
 //@   trusted
 
 // cursorPtr / nextCursorPtr are field-address accessors on every list params / result type.
+// (every implementation is `return &x.Cursor` / `return &x.NextCursor`: the address of a field is never nil)
 //@ func (listParams).cursorPtr
 //@   abstract
+//@   pure
+//@   ensures result != nil
+//@ func (listResult[T]).nextCursorPtr
+//@   abstract
+//@   pure
+//@   ensures result != nil
 
 // ---------------------------------------------------------------------------------------------
 // C13: keep-alive
